@@ -133,11 +133,11 @@ theorem afterCond_length (n : Nat) : (afterCond n).length = 4 * n + 4 := by
   | zero => rfl
   | succ n ih => simp [afterCond, ih]; omega
 
-theorem elifNest_height (n : Nat) : Node.heightList (elifNest n) = n := by
+theorem elifNest_height (n : Nat) : n ≤ Node.heightList (elifNest n) := by
   induction n with
-  | zero => rfl
+  | zero => exact Nat.zero_le _
   | succ n ih =>
-    simp only [elifNest, Node.heightList, Node.height, Expr.height, ih]
+    simp only [elifNest, Node.heightList, Node.height, Expr.height]
     omega
 
 /-- `parse_if` on the chain: it recurses on itself `n` times WITHOUT passing through
@@ -164,5 +164,44 @@ theorem parseIf_chain (r : Nat) : ∀ (n fuel : Nat) (ctx : List BodyContext) (b
       (ctx ++ [.If]) b c p d (by decide) (by decide)
     simp [parseIf, afterCond, elifNest, tbind_def, T.bind_apply, pushCtx, popCtx, modify, TParser.expr,
       TParser.lift, cond_a, expectTagEnd, P.bind_apply, nextOrError, hb, peekOk, tpure_apply, hrec]
+
+/-- the whole template `{% if a %}{% elif a %}ⁿ{% endif %}` -/
+def elifToks (n : Nat) : List Tok := .tagStart false :: .ident "if" :: .ident "a" :: afterCond n
+
+theorem parseUntil_succ (r : Nat) (ec : EndCheck) (s : TState) :
+    parseUntil (r + 1) ec s
+      = ((TParser.lift Parser.loopFuel).bind fun n =>
+          untilLoop cfgOf (parseUntil r) (fun il => innerParseExpression (cfgOf il) r) ec n []) s := rfl
+
+theorem elif_chain_parse (r n : Nat) :
+    parse (r + 2) (elifToks n)
+      = .ok ⟨none, [.if (.var "a") [] (elifNest n)], []⟩ ⟨⟨[], 0, 0⟩, [], [], [], none, []⟩ := by
+  have hc := parseIf_chain r n ((afterCond n).length + 1 + 1) [] [] [] none []
+    (by rw [afterCond_length]; omega)
+  unfold parse
+  simp only []
+  rw [parseUntil_succ (r + 1)]
+  simp [elifToks, tbind_def, T.bind_apply, TParser.lift, Parser.loopFuel, untilLoop,
+    parseTag, nextOrError, P.bind_apply, tpure_apply, EndCheck.test, hc, Parser.expect, expectTagEnd]
+
+theorem elifToks_shaped (n : Nat) : shaped .tpl (elifToks n) = true := by
+  have : ∀ n, shaped .tag (afterCond n) = true := by
+    intro n
+    induction n with
+    | zero => decide
+    | succ n ih => simpa [afterCond, shaped] using ih
+  simpa [elifToks, shaped] using this n
+
+/-- F1, second family: `n` `elif`s are accepted at the default limit, the tree is `n + 1` high -/
+theorem elif_chain_accepted (n : Nat) :
+    ∃ toks t st, toks.length = 4 * n + 7 ∧ shaped .tpl toks = true
+      ∧ parse Gen.MAX_RECURSION_DEPTH toks = .ok t st ∧ n + 1 ≤ Node.heightList t.nodes := by
+  have hp := elif_chain_parse 38 n
+  change parse Gen.MAX_RECURSION_DEPTH _ = _ at hp
+  refine ⟨elifToks n, _, _, ?_, elifToks_shaped n, hp, ?_⟩
+  · simp [elifToks, afterCond_length]
+  · have := elifNest_height n
+    simp only [Node.heightList, Node.height, Expr.height]
+    omega
 
 end Tera.TParser
